@@ -7,7 +7,13 @@
                           expression code can emit)
 * C18_BINDING_INSTRUCTIONS — the instructions whose VM arm changes frames, locals or closures
 The Lean theorem `MJ.C18.expression_code_binds_nothing` states that the two instruction sets are disjoint:
-evaluating an expression cannot bind a name (the model's `lookups`)."""
+evaluating an expression cannot bind a name (the model's `lookups`).
+
+* C18_CONTEXT_READERS / C18_BUILTIN_FILES — who may ask the render context (`builtins_do_not_read_context`)
+* C18_TRACK_WALK_ARMS / C18_VISIT_EXPR_ARMS / C18_TRACK_ASSIGN_ARMS / C18_TRACKER_HELPERS — the arms of
+  compiler/meta.rs as operation lists (`analysis_arms_as_modelled`, `walkers_interpret_arms`)
+* C18_LOAD_ORDER / C18_MACRO_CALL_FRAMES / C18_MACRO_CODEGEN — the run-time side of closures
+  (`closure_and_lookup_order_as_modelled`)"""
 import re
 from extract_tables import item, read, fn_body, lean_str
 
@@ -185,3 +191,458 @@ def _bf(repo):
         if must not in files:
             raise KeyError(must)
     return files, lean_list("c18BuiltinFiles", files)
+
+
+# ---------------------------------------------------------------------------- the arms of meta.rs
+# For every arm of `track_walk`, `tracker_visit_expr`, `track_assign`: the operations it performs
+# in source order (see lean/MJ/Model/MetaArms.lean for the format); arms with real logic and the
+# helper functions as control skeletons.  `MJ.C18.analysis_arms_as_modelled` proves the typed
+# table the Lean walkers interpret equal to these.
+META_RS = "minijinja/src/compiler/meta.rs"
+WALKERS = {"track_walk": "walk", "track_assign": "assign_target", "tracker_visit_expr": "visit",
+           "tracker_visit_expr_opt": "visit_opt", "tracker_visit_call": "visit_call",
+           "tracker_visit_callarg": "visit_callarg", "tracker_visit_macro": "visit_macro"}
+
+
+_TOKEN = re.compile(r"""\s+|"(?:[^"\\]|\\.)*"|[A-Za-z_][A-Za-z0-9_]*|\d+|=>|->|::|&&|\|\||==|!=|<=|>=|[-+*/%&|!<>=.,;:(){}\[\]?#@^~$']""")
+
+
+def toks(text):
+    out, i = [], 0
+    while i < len(text):
+        m = _TOKEN.match(text, i)
+        if not m:
+            raise KeyError("cannot tokenise meta.rs near: " + text[i:i + 30])
+        i = m.end()
+        if not m.group(0).isspace():
+            out.append(m.group(0))
+    return out
+
+
+def close_of(ts, i):
+    """index of the bracket closing ts[i]"""
+    depth = 0
+    for k in range(i, len(ts)):
+        if ts[k] in "([{":
+            depth += 1
+        elif ts[k] in ")]}":
+            depth -= 1
+            if depth == 0:
+                return k
+    raise KeyError("unbalanced brackets in meta.rs")
+
+
+def split_arms(ts):
+    """arms of a match body (token list): [(cfg, pattern tokens, body tokens)]"""
+    arms, i, n = [], 0, len(ts)
+    while i < n:
+        if ts[i] == ",":
+            i += 1
+            continue
+        start = i
+        depth = 0
+        while i < n and not (ts[i] == "=>" and depth == 0):
+            if ts[i] in "([{":
+                depth += 1
+            elif ts[i] in ")]}":
+                depth -= 1
+            i += 1
+        if i >= n:
+            raise KeyError("match arm without =>")
+        pat = ts[start:i]
+        i += 1
+        if ts[i] == "{":
+            j = close_of(ts, i)
+            body = ts[i + 1:j]
+            i = j + 1
+        else:
+            j, depth = i, 0
+            while j < n and not (ts[j] == "," and depth == 0):
+                if ts[j] in "([{":
+                    depth += 1
+                elif ts[j] in ")]}":
+                    depth -= 1
+                j += 1
+            body = ts[i:j]
+            i = j + 1
+        cfg = []
+        while pat and pat[0] == "#":
+            j = close_of(pat, 1)
+            cfg.append("".join(pat[4:j - 1]) if pat[2] == "cfg" else "".join(pat[1:j + 1]))
+            pat = pat[j + 1:]
+        arms.append((",".join(cfg), pat, body))
+    return arms
+
+
+class Env:
+    def __init__(self, binder):
+        self.names = {}
+        if binder:
+            self.names[binder] = "@"
+
+    def intro(self, name):
+        if name not in self.names and name not in ("_", "state", "self"):
+            self.names[name] = "$%d" % (sum(1 for v in self.names.values() if v.startswith("$")) + 1)
+
+    def ref(self, ts):
+        """normalised reference: `&stmt.iter` → `@.iter`, `x` → `$1`, `alias.as_ref().unwrap_or(arg)` → `$2?$1`"""
+        ts = [t for t in ts if t not in ("&", "mut", "ref")]
+        out, prev = [], None
+        for t in ts:
+            out.append(self.names.get(t, t) if prev not in (".", "::") else t)
+            prev = t
+        s = "".join(out)
+        m = re.fullmatch(r"(\$\d+)\.as_ref\(\)\.unwrap_or\((\$\d+)\)", s)
+        return m.group(1) + "?" + m.group(2) if m else s
+
+
+def split_args(ts):
+    args, cur, depth = [], [], 0
+    for t in ts:
+        if t in "([{":
+            depth += 1
+        elif t in ")]}":
+            depth -= 1
+        if t == "," and depth == 0:
+            args.append(cur)
+            cur = []
+        else:
+            cur.append(t)
+    if cur:
+        args.append(cur)
+    return args
+
+
+def pattern_binders(ts, env):
+    for t in ts:
+        if re.match(r"[A-Za-z_]", t) and t not in ("mut", "ref"):
+            env.intro(t)
+
+
+def strict(ts, env):
+    """op list of a simple arm; statements that are not understood become `?…`"""
+    ev, i, n = [], 0, len(ts)
+    while i < n:
+        t = ts[i]
+        if t == ";":
+            i += 1
+            continue
+        if t == "{" and close_of(ts, i) == i + 1:
+            i += 2
+            continue
+        # state.push() / state.pop() / state.assign(..) / state.assigned = x
+        if t == "state" and ts[i + 1:i + 2] == ["."]:
+            m = ts[i + 2]
+            if m in ("push", "pop") and ts[i + 3:i + 5] == ["(", ")"]:
+                ev.append(m)
+                i += 5
+                continue
+            if m == "assign" and ts[i + 3] == "(":
+                j = close_of(ts, i + 3)
+                arg = ts[i + 4:j]
+                if len(arg) == 1 and arg[0].startswith('"'):
+                    ev.append("assign_lit " + arg[0].strip('"'))
+                else:
+                    ev.append("assign_name " + env.ref(arg))
+                i = j + 1
+                continue
+            if m == "assigned" and ts[i + 3] == "=" and ts[i + 5:i + 6] in ([";"], []):
+                ev.append("isolate_end")
+                i += 5
+                continue
+        if t == "let" and "".join(ts[i + 2:i + 25]) == "=std::mem::replace(&mutstate.assigned,vec![Default::default()])":
+            env.intro(ts[i + 1])
+            ev.append("isolate_begin")
+            i += 25
+            continue
+        if t in WALKERS and ts[i + 1] == "(":
+            j = close_of(ts, i + 1)
+            args = [env.ref(a) for a in split_args(ts[i + 2:j])]
+            args = [a for a in args if a != "state"]
+            ev.append(WALKERS[t] + " " + " ".join(args))
+            i = j + 1
+            continue
+        if t == "for":
+            k = ts.index("in", i)
+            b = ts.index("{", k)
+            e = close_of(ts, b)
+            src = [x for x in ts[k + 1:b] if x != "&"]
+            rev = src[-8:] == [".", "iter", "(", ")", ".", "rev", "(", ")"]
+            if rev:
+                src = src[:-8]
+            elif src[-4:] == [".", "iter", "(", ")"]:
+                src = src[:-4]
+            pat_ts = ts[i + 1:k]
+            head = ("each_rev " if rev else "each ") + env.ref(src)
+            saved = dict(env.names)          # the binders of the pattern are local to the loop
+            pattern_binders(pat_ts, env)
+            ev.append(head + " " + env.ref(pat_ts) + " [")
+            ev += strict(ts[b + 1:e], env)
+            ev.append("]")
+            env.names = saved
+            i = e + 1
+            continue
+        # PATH.iter()[.rev()][.zip(PATH.iter())].for_each(|pat| body)
+        if re.match(r"[A-Za-z_]", t):
+            j = i
+            while j + 1 < n and ts[j + 1] == "." and ts[j + 2] != "iter":
+                j += 2
+            if ts[j + 1:j + 5] == [".", "iter", "(", ")"]:
+                path = env.ref(ts[i:j + 1])
+                k = j + 5
+                kind, other = "each", None
+                if ts[k:k + 4] == [".", "rev", "(", ")"]:
+                    kind = "each_rev"
+                    k += 4
+                if ts[k:k + 3] == [".", "zip", "("]:
+                    z = close_of(ts, k + 2)
+                    inner = ts[k + 3:z]
+                    if inner[-4:] == [".", "iter", "(", ")"]:
+                        other = env.ref(inner[:-4])
+                        kind = "each_zip"
+                        k = z + 1
+                if ts[k:k + 4] == [".", "for_each", "(", "|"]:
+                    z = close_of(ts, k + 2)
+                    p2 = ts.index("|", k + 4)
+                    saved = dict(env.names)  # the closure parameters are local to the closure
+                    pattern_binders(ts[k + 4:p2], env)
+                    body = ts[p2 + 1:z]
+                    if body and body[0] == "{" and close_of(body, 0) == len(body) - 1:
+                        body = body[1:-1]
+                    ev.append(kind + " " + path + (" " + other if other else "") + " " + env.ref(ts[k + 4:p2]) + " [")
+                    ev += strict(body, env)
+                    ev.append("]")
+                    env.names = saved
+                    i = z + 1
+                    continue
+        # not understood: up to the next `;` at depth 0
+        j, depth = i, 0
+        while j < n and not (ts[j] == ";" and depth == 0):
+            if ts[j] in "([{":
+                depth += 1
+            elif ts[j] in ")]}":
+                depth -= 1
+            j += 1
+        ev.append("?" + env.ref(ts[i:j]))
+        i = j + 1
+    return ev
+
+
+def anon(env, ts):
+    """argument of a walk call inside a skeleton: the arm's node stays `@`, any other local is `_`"""
+    ts = [t for t in ts if t not in ("&", "mut", "ref")]
+    if not ts:
+        return ""
+    head = env.names.get(ts[0], ts[0])
+    if head not in ("@", "state", "true", "false"):
+        head = "_"
+    return head + "".join(ts[1:])
+
+
+KEYWORDS = ("if", "else", "loop", "match", "return", "break", "continue", "while", "for", "in", "let", "{", "}", "=>")
+
+
+def skeleton(ts, env):
+    """control skeleton of an arm / helper with real logic: keywords, braces, the calls on the
+    tracker (`state.…` / `self.…`) and on the walk functions, in source order"""
+    ev, i, n = [], 0, len(ts)
+    while i < n:
+        t = ts[i]
+        if t in WALKERS and i + 1 < n and ts[i + 1] == "(":
+            j = close_of(ts, i + 1)
+            args = [anon(env, a) for a in split_args(ts[i + 2:j])]
+            ev.append(WALKERS[t] + " " + " ".join(a for a in args if a != "state"))
+            i = j + 1
+            continue
+        if t in ("state", "self") and ts[i + 1:i + 2] == ["."]:
+            j = i + 2
+            path = [ts[j]]
+            j += 1
+            while j + 1 < n and ts[j] == "." and re.match(r"[A-Za-z_]", ts[j + 1]):
+                path.append(ts[j + 1])
+                j += 2
+            neg = "!" if i > 0 and ts[i - 1] == "!" else ""
+            if j < n and ts[j] == "(":
+                z = close_of(ts, j)
+                ev.append(neg + "tracker." + ".".join(path) + "()")
+                i = j + 1     # arguments are scanned too (nested calls)
+                continue
+            if j < n and ts[j] == "=" and ts[j + 1:j + 2] != ["="]:
+                ev.append("tracker." + ".".join(path) + " =")
+                i = j + 1
+                continue
+            ev.append(neg + "tracker." + ".".join(path))
+            i = j
+            continue
+        if t in KEYWORDS:
+            ev.append(t)
+        elif t.startswith('"'):
+            ev.append(t)
+        elif t in ("true", "false", "Some", "None", "rev", "zip", "next", "unwrap_or", "is_none", "is_some",
+                   "identify_call", "Block", "Function", "Var", "GetAttr", "Pos", "Kwarg", "PosSplat",
+                   "KwargSplat", "contains", "insert", "any", "push", "pop", "last_mut"):
+            ev.append(t)
+        i += 1
+    return ev
+
+
+def binder_of(pat):
+    s = "".join(pat)
+    m = re.search(r"\((?:ref)?(\w+)\)$", s)
+    return m.group(1) if m and m.group(1) != "_" and "|" not in s else None
+
+
+def variants_of(pat):
+    v = re.findall(r"ast::\w+::(\w+)", "".join(pat))
+    return "|".join(v) if v else "".join(pat)
+
+
+def match_rows(src, fn, scrutinee):
+    body = fn_body(src, r"\bfn\s+%s\s*[<(]" % fn)
+    inner = fn_body(body, r"match\s+%s\s*\{" % scrutinee)
+    rows = []
+    for cfg, pat, text in split_arms(toks(inner)):
+        env = Env(binder_of(pat))
+        ops = strict(text, env)
+        if any(o.startswith("?") for o in ops):
+            ops = ["~"] + skeleton(text, Env(binder_of(pat)))
+        rows.append((variants_of(pat), cfg, ops))
+    return rows
+
+
+def helper_row(src, fn):
+    body = fn_body(src, r"\bfn\s+%s\s*[<(]" % fn)
+    return (fn, "", ["~"] + skeleton(toks(body), Env(None)))
+
+
+
+
+def _rows_lean(name, rows):
+    return (f"def {name} : List (String × String × List String) := [\n  " + ",\n  ".join(
+        "(" + lean_str(v) + ", " + lean_str(c) + ", [" + ", ".join(lean_str(o) for o in ops) + "])"
+        for v, c, ops in rows) + "]")
+
+
+def _meta_src(repo):
+    return strip_comments(read(repo, META_RS))
+
+
+@item("C18_TRACK_WALK_ARMS")
+def _twa(repo):
+    rows = match_rows(_meta_src(repo), "track_walk", "node")
+    if len(rows) < 15:
+        raise KeyError("track_walk arms")
+    return rows, _rows_lean("c18TrackWalkArms", rows)
+
+
+@item("C18_VISIT_EXPR_ARMS")
+def _vea(repo):
+    rows = match_rows(_meta_src(repo), "tracker_visit_expr", "expr")
+    if len(rows) < 12:
+        raise KeyError("tracker_visit_expr arms")
+    return rows, _rows_lean("c18VisitExprArms", rows)
+
+
+@item("C18_TRACK_ASSIGN_ARMS")
+def _taa(repo):
+    rows = match_rows(_meta_src(repo), "track_assign", "expr")
+    if len(rows) < 3:
+        raise KeyError("track_assign arms")
+    return rows, _rows_lean("c18TrackAssignArms", rows)
+
+
+HELPERS = ["tracker_visit_macro", "tracker_visit_call", "tracker_visit_callarg", "tracker_visit_expr_opt",
+           "find_macro_closure", "find_undeclared", "is_assigned", "assign", "assign_nested", "push", "pop"]
+
+
+@item("C18_TRACKER_HELPERS")
+def _th(repo):
+    src = _meta_src(repo)
+    rows = [helper_row(src, f) for f in HELPERS]
+    return rows, _rows_lean("c18TrackerHelpers", rows)
+
+
+# ---------------------------------------------------------------------------- run-time side of closures
+def _events(body, patterns):
+    """names of the patterns in the order in which they occur in `body`"""
+    found = []
+    for name, pat in patterns:
+        for m in re.finditer(pat, body):
+            found.append((m.start(), name))
+    return [n for _, n in sorted(found)]
+
+
+@item("C18_LOAD_ORDER")
+def _lo(repo):
+    """`Context::load`: the order in which a frame's parts are consulted, frames top-down, globals last"""
+    src = strip_comments(read(repo, "minijinja/src/vm/context.rs"))
+    body = fn_body(src, r"\bpub fn load\s*\(")
+    ev = _events(body, [
+        ("frames-top-down", r"self\s*\.\s*stack\s*\.\s*iter\s*\(\s*\)\s*\.\s*rev\s*\(\s*\)"),
+        ("frames-bottom-up", r"self\s*\.\s*stack\s*\.\s*iter\s*\(\s*\)(?!\s*\.\s*rev)"),
+        ("locals", r"\b\w+\s*\.\s*locals\s*\.\s*get\s*\("),
+        ("loop", r"\b\w+\s*\.\s*current_loop"),
+        ("closure", r"\b\w+\s*\.\s*closure_context"),
+        ("context", r"\b\w+\s*\.\s*ctx\s*\.\s*get_attr_fast\s*\("),
+        ("globals", r"self\s*\.\s*env\s*\.\s*get_global\s*\("),
+    ])
+    if "context" not in ev or "locals" not in ev:
+        raise KeyError("Context::load")
+    return ev, "def c18LoadOrder : List String := [" + ", ".join(lean_str(e) for e in ev) + "]"
+
+
+@item("C18_MACRO_CALL_FRAMES")
+def _mcf(repo):
+    """`eval_macro`: how the context of a macro call is built"""
+    src = strip_comments(read(repo, "minijinja/src/vm/mod.rs"))
+    body = fn_body(src, r"\bpub\(crate\) fn eval_macro<'template>\s*\(")
+    ev = _events(body, [
+        ("base=clone_base", r"state\s*\.\s*ctx\s*\.\s*clone_base\s*\(\s*\)"),
+        ("reset_with_frame(base)", r"ctx\s*\.\s*reset_with_frame\s*\(\s*Frame::new\s*\(\s*context_base\s*\)\s*\)"),
+        ("closure_context=closure", r"closure_context\s*:\s*closure\b"),
+        ("push_frame(closure_frame)", r"ctx\s*\.\s*push_frame\s*\(\s*closure_frame\s*\)"),
+        ("store(caller)", r"ctx\s*\.\s*store\s*\([^;]*\"caller\""),
+        ("swap-context", r"mem::replace\s*\(\s*&mut\s+state\s*\.\s*ctx\s*,\s*ctx\s*\)"),
+        ("do_eval", r"Self::do_eval\s*\("),
+    ])
+    if "push_frame(closure_frame)" not in ev:
+        raise KeyError("eval_macro")
+    return ev, "def c18MacroCallFrames : List String := [" + ", ".join(lean_str(e) for e in ev) + "]"
+
+
+@item("C18_MACRO_CODEGEN")
+def _mcg(repo):
+    """`compile_macro_expression` + `compile_macro`: closure analysis, `caller` flag, Enclose before
+    BuildMacro before StoreLocal; `Context::enclose` pins a name even when it is undefined"""
+    src = strip_comments(read(repo, CODEGEN))
+    body = fn_body(src, r"\bfn\s+compile_macro_expression\s*\(")
+    ev = _events(body, [
+        ("defaults-back-to-front", r"defaults\s*\.\s*iter\s*\(\s*\)\s*\.\s*rev\s*\(\s*\)"),
+        ("args-back-to-front", r"args\s*\.\s*iter\s*\(\s*\)\s*\.\s*rev\s*\(\s*\)"),
+        ("default:compile_expr", r"self\s*\.\s*compile_expr\s*\(\s*default\s*\)"),
+        ("arg:compile_assignment", r"self\s*\.\s*compile_assignment\s*\(\s*arg\s*\)"),
+        ("body:compile_stmt", r"self\s*\.\s*compile_stmt\s*\(\s*node\s*\)"),
+        ("Return", r"Instruction::Return"),
+        ("find_macro_closure", r"meta::find_macro_closure\s*\(\s*macro_decl\s*\)"),
+        ("caller=remove(caller)", r"undeclared\s*\.\s*remove\s*\(\s*\"caller\"\s*\)"),
+        ("Enclose(each)", r"Instruction::Enclose\s*\(\s*name\s*\)"),
+        ("GetClosure", r"Instruction::GetClosure"),
+        ("MACRO_CALLER-if-caller", r"flags\s*\|=\s*MACRO_CALLER"),
+        ("BuildMacro", r"Instruction::BuildMacro\s*\("),
+    ])
+    body2 = fn_body(src, r"\bfn\s+compile_macro\s*\(")
+    ev += ["compile_macro:" + e for e in _events(body2, [
+        ("compile_macro_expression", r"self\s*\.\s*compile_macro_expression\s*\("),
+        ("StoreLocal(name)", r"Instruction::StoreLocal\s*\(\s*macro_decl\s*\.\s*name\s*\)"),
+    ])]
+    ctx = strip_comments(read(repo, "minijinja/src/vm/context.rs"))
+    enc = fn_body(ctx, r"\bpub fn enclose\s*\(")
+    ev += ["enclose:" + e for e in _events(enc, [
+        ("if-missing", r"!\s*closures\s*\[\s*closure\s*\]\s*\.\s*contains_key\s*\(\s*key\s*\)"),
+        ("load", r"self\s*\.\s*load\s*\(\s*closures\s*,\s*key\s*\)"),
+        ("or-undefined", r"unwrap_or\s*\(\s*Value::UNDEFINED\s*\)|unwrap_or_default\s*\(\s*\)"),
+        ("insert", r"closures\s*\[\s*closure\s*\]\s*\.\s*insert\s*\(\s*key\s*,\s*value\s*\)"),
+    ])]
+    if "Enclose(each)" not in ev or "enclose:insert" not in ev:
+        raise KeyError("compile_macro_expression / Context::enclose")
+    return ev, "def c18MacroCodegen : List String := [" + ", ".join(lean_str(e) for e in ev) + "]"
